@@ -404,8 +404,8 @@ func Run(r *vf.Run) {
 	}
 	cfLoaded, _ := corpus.Load(cfDir, false, "./...")
 	// generated patterns
-	nGen := r.Pick(250, 4000)
-	nSym := r.Pick(120, 1500)
+	nGen := r.Pick(250, 2500)
+	nSym := r.Pick(120, 1000)
 	var generated []monitors.PatternSpec
 	rng := r.Rand("patgen", 0)
 	var nodes []ast.Node
